@@ -356,7 +356,7 @@ struct pmis {
         for(size_t i = 0, nv = C.send.count(); i < nv; ++i)
             D_loc[i] = D[C.send.col[i]];
 
-        C.exchange(&D_loc[0], &D_rem[0]);
+        C.exchange(D_loc.data(), D_rem.data());
 
         auto s_loc = std::make_shared<bool_matrix>();
         auto s_rem = std::make_shared<bool_matrix>();
@@ -467,7 +467,7 @@ struct pmis {
         // Exchange state
         for(ptrdiff_t i = 0, m = Sp.send.count(); i < m; ++i)
             send_state[i] = loc_state[Sp.send.col[i]];
-        Sp.exchange(&send_state[0], &rem_state[0]);
+        Sp.exchange(send_state.data(), rem_state.data());
 
         std::vector< std::vector<ptrdiff_t> > send_pts(Sp.recv.nbr.size());
         std::vector<ptrdiff_t> recv_pts;
@@ -597,7 +597,7 @@ struct pmis {
 
                 if (!npts) continue;
                 recv_pts.resize(npts);
-                MPI_Recv(&recv_pts[0], npts, datatype<ptrdiff_t>(), Sp.send.nbr[i], tag_exc_pts, comm, MPI_STATUS_IGNORE);
+                MPI_Recv(recv_pts.data(), npts, datatype<ptrdiff_t>(), Sp.send.nbr[i], tag_exc_pts, comm, MPI_STATUS_IGNORE);
 
                 for(int k = 0; k < npts; k += 2) {
                     ptrdiff_t c  = recv_pts[k] - Sp.loc_col_shift();
@@ -619,7 +619,7 @@ struct pmis {
 
             for(ptrdiff_t i = 0, m = Sp.send.count(); i < m; ++i)
                 send_state[i] = loc_state[Sp.send.col[i]];
-            Sp.exchange(&send_state[0], &rem_state[0]);
+            Sp.exchange(send_state.data(), rem_state.data());
 
             if (0 == comm.reduce(MPI_SUM, n_undone))
                 break;
@@ -630,7 +630,7 @@ struct pmis {
         AMGCL_TIC("drop empty aggregates");
         for(ptrdiff_t i = 0, m = Sp.send.count(); i < m; ++i)
             send_owner[i] = loc_owner[Sp.send.col[i]];
-        Sp.exchange(&send_owner[0], &rem_owner[0]);
+        Sp.exchange(send_owner.data(), rem_owner.data());
 
         std::vector<ptrdiff_t> new_id(naggr + 1, 0);
         for(ptrdiff_t i = 0; i < n; ++i) {
@@ -684,7 +684,7 @@ struct pmis {
 
                 if (!npts) continue;
                 recv_pts.resize(npts);
-                MPI_Recv(&recv_pts[0], npts, datatype<ptrdiff_t>(), Sp.send.nbr[i], tag_exc_pts, comm, MPI_STATUS_IGNORE);
+                MPI_Recv(recv_pts.data(), npts, datatype<ptrdiff_t>(), Sp.send.nbr[i], tag_exc_pts, comm, MPI_STATUS_IGNORE);
 
                 for(int k = 0; k < npts; k += 2) {
                     ptrdiff_t c  = recv_pts[k] - Sp.loc_col_shift();
@@ -823,7 +823,7 @@ struct pmis {
 
                 MPI_Request *req = &recv_req[3 * i];
 
-                MPI_Irecv(&recv_agg[p], w, datatype<ptrdiff_t>(), n, tag_exc_agg, comm, &req[0]);
+                MPI_Irecv(recv_agg.data() + p, w, datatype<ptrdiff_t>(), n, tag_exc_agg, comm, &req[0]);
                 MPI_Irecv(&recv_dof[p], w, datatype<ptrdiff_t>(), n, tag_exc_dof, comm, &req[1]);
                 MPI_Irecv(&recv_row[null_cols * p], null_cols * w, datatype<double>(), n, tag_exc_row, comm, &req[2]);
             }
@@ -835,7 +835,7 @@ struct pmis {
 
                 MPI_Request *req = &send_req[3 * i];
 
-                MPI_Isend(&send_agg[p], w, datatype<ptrdiff_t>(), n, tag_exc_agg, comm, &req[0]);
+                MPI_Isend(send_agg.data() + p, w, datatype<ptrdiff_t>(), n, tag_exc_agg, comm, &req[0]);
                 MPI_Isend(&send_dof[p], w, datatype<ptrdiff_t>(), n, tag_exc_dof, comm, &req[1]);
                 MPI_Isend(&send_row[null_cols * p], null_cols * w, datatype<double>(), n, tag_exc_row, comm, &req[2]);
             }
@@ -895,7 +895,7 @@ struct pmis {
                             Bpart[r + d * c] = src[c];
                     }
 
-                    qr.factorize(d, null_cols, &Bpart[0], amgcl::detail::col_major);
+                    qr.factorize(d, null_cols, Bpart.data(), amgcl::detail::col_major);
 
                     for(ptrdiff_t r = 0, k = i * null_cols * null_cols; r < null_cols; ++r)
                         for(int c = 0; c < null_cols; ++c, ++k)
